@@ -568,7 +568,11 @@ func genHbFate(rt *rapid.T, c Cfg, label string) Fate {
 func genConnFate(rt *rapid.T, c Cfg, label string) Fate {
 	switch rapid.IntRange(0, 9).Draw(rt, label+"-kind") {
 	case 0, 1, 2, 3:
-		return Fate{Act: "ok", DelayUs: genDelay(rt, c, label)}
+		f := Fate{Act: "ok", DelayUs: genDelay(rt, c, label)}
+		if rapid.IntRange(0, 2).Draw(rt, label+"-same-channel") == 0 {
+			f.Ch = -1 // the same channel number again
+		}
+		return f
 	case 4, 5:
 		return Fate{Act: "lose"}
 	case 6:
@@ -595,6 +599,9 @@ func genPlanC09(rt *rapid.T) *Plan {
 	p := &Plan{Cfg: c, DefConn: okFate(1337), DefHb: okFate(337), DefAck: okFate(137), DefDisc: okFate(1337)}
 	if rapid.IntRange(0, 5).Draw(rt, "dead-gateway") == 0 {
 		p.DefHb = Fate{Act: "lose"}
+	}
+	if rapid.IntRange(0, 2).Draw(rt, "gateway-reuses-channel") == 0 {
+		p.DefConn.Ch = -1
 	}
 	nhb := rapid.IntRange(0, 14).Draw(rt, "hb-fates")
 	for i := 0; i < nhb; i++ {
